@@ -101,6 +101,12 @@ def run_family(chk, pid, n_quick, n_thorough, extra=()):
         if outcome == "returned":
             items.append(dd.coq_item(sc, log))
             owners.append((sc, log))
+    if pid == "C12":
+        for fp, msg, details in dd.usage_probes():
+            chk.count("usage_probes")
+            if not any(v[0] == fp for v in chk.violations):
+                details = dict(details, kind="monitor", monitor=fp, how_to_replay="harness.dispatch_driver.usage_probes()")
+                chk.violation(fp, msg, details)
     res = common.coq_eval_sharded(pid.lower() + "_d", dd.D_HEADER, items, balance=True) if items else []
     diverged = []
     for (sc, log), v in zip(owners, res):
